@@ -368,11 +368,11 @@ func c03Specs(tier string) []*clustermc.Spec {
 		n0, r, table int
 		leaves       bool
 	}
-	cfs := []cf{{1, 1, 1 << 16, false}, {2, 2, 128, true}}
-	depth, maxN := 4, 3
+	cfs := []cf{{1, 1, 1 << 16, false}, {2, 2, 128, true}, {1, 2, 128, false}}
+	depth, maxN := 6, 3
 	if !quick {
-		depth = 5
-		cfs = append(cfs, cf{1, 1, 128, false}, cf{2, 1, 1 << 16, false}, cf{2, 2, 1 << 16, true}, cf{1, 2, 128, false})
+		depth = 7
+		cfs = append(cfs, cf{1, 1, 128, false}, cf{2, 1, 1 << 16, false}, cf{2, 2, 1 << 16, true})
 	}
 	var out []*clustermc.Spec
 	for _, c := range cfs {
